@@ -21,10 +21,18 @@ type c05Snap struct {
 	edges []vEdgeRow
 	np    []vPointRow
 	ep    []vPointRow
+	root  string   // the instance root the store reports
+	roots []string // what a reader asking for the root node(s) is given
 }
 
 func c05Snapshot(sdb *DbSqlite) c05Snap {
-	return c05Snap{vDumpEdges(sdb), vDumpPoints(sdb, "node_points"), vDumpPoints(sdb, "edge_points")}
+	s := c05Snap{edges: vDumpEdges(sdb), np: vDumpPoints(sdb, "node_points"), ep: vDumpPoints(sdb, "edge_points"), root: sdb.rootNodeID()}
+	nodes, err := sdb.getNodes(nil, "root", "all", "", true)
+	vAssert(err == nil, "the root listing is readable")
+	for _, n := range nodes {
+		s.roots = append(s.roots, n.ID)
+	}
+	return s
 }
 
 func c05SamePoints(a, b []vPointRow) bool {
@@ -45,6 +53,14 @@ func c05Same(a, b c05Snap) bool {
 	}
 	for i := range a.edges {
 		if a.edges[i] != b.edges[i] {
+			return false
+		}
+	}
+	if a.root != b.root || len(a.roots) != len(b.roots) {
+		return false
+	}
+	for i := range a.roots {
+		if a.roots[i] != b.roots[i] {
 			return false
 		}
 	}
@@ -149,7 +165,7 @@ func HarnessC05Write() {
 	}
 	if refused {
 		vCover("c05: refused")
-		vAssert(c05Same(before, c05Snapshot(sdb)), "a write answered with an error leaves node contents and hashes unchanged")
+		vAssert(c05Same(before, c05Snapshot(sdb)), "a write answered with an error leaves node contents, hashes and the reported instance root unchanged")
 		vAssert(!upTraffic, "a write answered with an error is not rebroadcast")
 	} else {
 		vCover("c05: accepted")
